@@ -36,10 +36,13 @@ func (e *env) runCLI() (classes []string) {
 		return nil
 	}
 	args := append(append([]string{}, cs.Args...), file)
-	cmd := exec.Command(c.RareBin, args...)
 	var stdout, stderr bytes.Buffer
+	for attempt := 1; ; attempt++ {
+	stdout.Reset()
+	stderr.Reset()
+	cmd := exec.Command(c.RareBin, args...)
 	cmd.Stdout, cmd.Stderr = &stdout, &stderr
-	cmd.Env = append(os.Environ(), "GOTRACEBACK=all")
+	cmd.Env = append(os.Environ(), "GOTRACEBACK=crash") // crash: every thread dumps its own stack on SIGQUIT (a goroutine running on another thread is otherwise "stack unavailable")
 	if err := cmd.Start(); err != nil {
 		c.Inconclusive("cannot start rare: " + err.Error())
 		return nil
@@ -87,6 +90,11 @@ func (e *env) runCLI() (classes []string) {
 						break
 					}
 				}
+				if stuck && where == "" && attempt < 3 {
+					// the dump did not show where it spins (signal taken by another thread): look again
+					c.Count("cli_hang_evidence_retries", 1)
+					continue
+				}
 				if stuck && where != "" {
 					e.fail("hang", "`rare %s` on input %s does not terminate: it had used %.0f s of CPU (a terminating run needs ~0.01 s) and the goroutine dump taken then shows it inside %s", strings.Join(cs.Args, " "), run.Q(cs.Input), cpuLimit, where)
 				} else {
@@ -95,6 +103,8 @@ func (e *env) runCLI() (classes []string) {
 				return classes
 			}
 		}
+	}
+	break
 	}
 	se := stderr.String()
 	if i := strings.Index(se, "panic: "); i >= 0 && strings.Contains(se, "goroutine ") {
